@@ -717,3 +717,41 @@ Qed.
 
 Lemma line_split_weak_guard_refuted : gd_line_split 0 [58; 119; 113]%N = GdSplitPanic.
 Proof. reflexivity. Qed.
+
+(* ------------------------------------------------------------------------------------ *)
+(* two peer numbers that bound each other *)
+
+(* the upper bound of the guard in front of recvPrefixHash's make is a constant expression of the
+   code, it is compared with the very variable make receives, and its value is kPrefixHashStep *)
+Lemma guards_hash_step_bound_is_const :
+  Consts.guards_hash_step_bound_const = true /\ Consts.guards_hash_step_bound_on_make_arg = true /\
+  Consts.guards_hash_step_bound = Consts.guards_hash_step.
+Proof. repeat split; reflexivity. Qed.
+
+(* with a constant bound the amount handed to make is bounded whatever size and step the peer
+   announces, consistent with each other or not *)
+Lemma hash_guard2_const_bounded : forall size ms hs,
+  gd_hash_guard2 false Consts.guards_hash_step_bound size ms hs = true -> 0 < hs - ms <= Consts.guards_hash_step.
+Proof.
+  intros size ms hs H. unfold gd_hash_guard2 in H. rewrite negb_true_iff, orb_false_iff in H.
+  destruct H as [H1 H2]. apply Z.leb_gt in H1. rewrite Z.gtb_ltb in H2. apply Z.ltb_ge in H2.
+  destruct guards_hash_step_bound_is_const as [_ [_ Hb]]. rewrite Hb in H2. lia.
+Qed.
+
+(* with the announced size as the bound there is none: the peer chooses both *)
+Lemma hash_guard2_by_size_refuted : forall n, 0 < n ->
+  gd_hash_guard2 true Consts.guards_hash_step_bound n 0 n = true.
+Proof.
+  intros n Hn. unfold gd_hash_guard2. rewrite Z.sub_0_r.
+  assert (H1 : (n <=? 0) = false) by (apply Z.leb_gt; lia).
+  assert (H2 : (n >? n) = false) by (rewrite Z.gtb_ltb; apply Z.ltb_irrefl).
+  rewrite H1, H2. reflexivity.
+Qed.
+
+Lemma hash_guard2_by_size_witness :
+  gd_hash_guard2 true Consts.guards_hash_step_bound (2 ^ 62) 0 (2 ^ 62) = true /\ 2 ^ 62 > Consts.guards_hash_step /\
+  gd_hash_guard2 false Consts.guards_hash_step_bound (2 ^ 62) 0 (2 ^ 62) = false.
+Proof. vm_compute. repeat split; reflexivity. Qed.
+
+Lemma pair_accepts_unbounded : forall n, 0 < n -> gd_pair_accepts n n = true.
+Proof. intros n Hn. unfold gd_pair_accepts. apply andb_true_iff. split; [apply Z.ltb_lt; lia|apply Z.leb_refl]. Qed.
